@@ -402,7 +402,114 @@ def render_program(forest: tuple, rot: int, pos: str, namelen: int = 0, nmode: s
 
 
 def render_spec(spec: Dict[str, Any]) -> Dict[str, List[Tuple[str, str]]]:
-    return render_program(spec["forest"], spec["rot"], spec["pos"], spec.get("namelen", 0), spec.get("nmode", ""))
+    files = render_program(spec["forest"], spec["rot"], spec["pos"], spec.get("namelen", 0), spec.get("nmode", ""))
+    odd = spec.get("odd")
+    if odd:
+        t = odd_target(spec)
+        files[t] = odd_render(files[t], odd["ch"], odd["site"], "kconfig")
+    return files
+
+
+# ----------------------------------------------------------------------------------------------------------
+# odd characters inside the TEXTS of a compliant file (help lines, quoted strings, comments)
+# ----------------------------------------------------------------------------------------------------------
+
+# characters at which str.splitlines() cuts but which neither a '\n'-oriented reader nor the Kconfig parsers take for a
+# line end: VT, FF, FS, GS, RS, NEL, LINE SEPARATOR, PARAGRAPH SEPARATOR
+SEP_CHARS = ("\x0b", "\x0c", "\x1c", "\x1d", "\x1e", "\x85", "\u2028", "\u2029")
+# neighbours: white space for str.split() / `\s` but no line boundary (US, NBSP, IDEOGRAPHIC SPACE), invisible / non-ASCII /
+# control characters that are no white space at all (ZERO WIDTH SPACE, e-acute, DEL)
+NEIGH_CHARS = ("\x1f", "\xa0", "\u3000", "\u200b", "\xe9", "\x7f")
+# a tabulator is data inside a quoted string (and a format defect anywhere else): string sites only
+STR_ONLY_CHARS = ("\t",)
+ODD_CHARS = STR_ONLY_CHARS + SEP_CHARS + NEIGH_CHARS
+ODD_MANGLED_QUICK = ("\t", "\x0c", "\x85", "\u2028", "\xa0", "\xe9")
+ODD_FORESTS = (
+    (
+        ("cfg", "help"), ("cfg", "cmt"), ("cfg", "str"), ("cmt",),
+        ("menu", (("cfg", "strhash"), ("mcfg",), ("choice", (("cfg", "plain"), ("cfg", "help"))))),
+    ),
+)  # fmt: skip
+
+
+def odd_class(ch: str) -> str:
+    if ch == "\t":
+        return "tab_in_string"
+    if ch in SEP_CHARS:
+        return "splitlines_boundary_char"
+    return "whitespace_like_char" if ch.isspace() else "non_ascii_or_control_char"
+
+
+def odd_name(ch: str) -> str:
+    return "TAB" if ch == "\t" else f"U+{ord(ch):04X}"
+
+
+def odd_target(spec: Dict[str, Any]) -> str:
+    return "Kconfig" if spec["pos"] == "main" else "Kconfig.body"
+
+
+_RE_QSTR = re.compile(r'"([^"]*)"')
+
+
+def odd_sites(lines: List[Tuple[str, str]], family: str) -> List[Tuple[int, int, int, str]]:
+    """the text regions of a compliant file: (line, start, end, kind); kind: help | comment_line | trailing_comment | string"""
+    out = []
+    for li, (line, label) in enumerate(lines):
+        if not line.strip():
+            continue
+        if label.startswith("help.") and label != "help.blank":
+            out.append((li, len(line) - len(line.lstrip(" ")), len(line), "help"))
+        elif label in ("hash", "rename.comment"):
+            out.append((li, line.index("#") + 2, len(line), "comment_line"))
+        elif label == "source" or family == "rename" and label != "rename.trailing_comment":
+            continue  # file names and option names are no texts
+        else:
+            code_end = len(line)
+            if label in ("prop.hash", "rename.trailing_comment"):
+                code_end = line.index(" # ")
+                out.append((li, code_end + 3, len(line), "trailing_comment"))
+            for m in _RE_QSTR.finditer(line, 0, code_end):
+                if m.end(1) - m.start(1) >= 2:
+                    out.append((li, m.start(1), m.end(1), "string"))
+    return out
+
+
+def odd_put(line: str, start: int, end: int, ch: str) -> str:
+    """the character in the MIDDLE of the region: instead of the first blank that stands between two words, else between
+    the first two characters (never first / last character of a line or of a string)"""
+    for i in range(start + 1, end - 1):
+        if line[i] == " " and line[i - 1] != " " and line[i + 1] != " ":
+            return line[:i] + ch + line[i + 1 :]
+    assert end - start >= 2
+    return line[: start + 1] + ch + line[start + 1 :]
+
+
+def odd_render(lines: List[Tuple[str, str]], ch: str, site: int, family: str) -> List[Tuple[str, str]]:
+    """site >= 0: that text region carries the character; site == -1: every text region does (a tabulator: every string)"""
+    out = list(lines)
+    sites = odd_sites(lines, family)
+    # right to left, so that the columns of the regions further left on the same line stay valid
+    for k in sorted(range(len(sites)), key=lambda k: (sites[k][0], -sites[k][1])):
+        li, a, b, kind = sites[k]
+        if site not in (-1, k) or (ch in STR_ONLY_CHARS and kind != "string"):
+            continue
+        out[li] = (odd_put(out[li][0], a, b, ch), out[li][1])
+    return out
+
+
+def odd_single_specs() -> List[Dict[str, Any]]:
+    """every (text region, character): compliant files that are only checked as they are (clause 1)"""
+    out = []
+    for f in ODD_FORESTS:
+        for pos in ("main", "sub"):
+            base = {"forest": f, "rot": 0, "pos": pos, "D": 0, "tag": "odd1"}
+            sites = odd_sites(render_spec(base)[odd_target(base)], "kconfig")
+            for k, (_li, _a, _b, kind) in enumerate(sites):
+                for ch in ODD_CHARS:
+                    if ch in STR_ONLY_CHARS and kind != "string":
+                        continue
+                    out.append(dict(base, odd={"ch": ch, "site": k, "kind": kind}))
+    return out
 
 
 def text_of(lines: List[Tuple[str, str]]) -> str:
@@ -432,17 +539,19 @@ def programs(tier: str) -> List[Dict[str, Any]]:
     out: List[Dict[str, Any]] = []
     seen = set()
 
-    def emit(forest, rot, pos, dist, tag, namelen=0, nmode=""):
-        files = render_program(forest, rot, pos, namelen, nmode)
-        key = common.h64(sorted((k, text_of(v)) for k, v in files.items()))
-        if key in seen:
-            return
-        seen.add(key)
+    def emit(forest, rot, pos, dist, tag, namelen=0, nmode="", odd=None):
         spec = {"forest": forest, "rot": rot, "pos": pos, "D": dist, "tag": tag}
         if namelen:
             spec["namelen"] = namelen
         if nmode:
             spec["nmode"] = nmode
+        if odd:
+            spec["odd"] = odd
+        files = render_spec(spec)
+        key = common.h64(sorted((k, text_of(v)) for k, v in files.items()))
+        if key in seen:
+            return
+        seen.add(key)
         out.append(spec)
 
     nfl = len(CFG_FLAVOURS)
@@ -486,6 +595,11 @@ def programs(tier: str) -> List[Dict[str, Any]]:
         for pos in ("main", "sub"):
             for namelen, nmode in ((NAME_MAX, ""), (NAME_MAX - 1, ""), (0, "p3"), (NAME_MAX, "p3")):
                 emit(f, 0, pos, 1 if thorough else 0, "bound", namelen, nmode)
+    # odd characters: every text region of the file carries the character; mangled like every other compliant file
+    for f in ODD_FORESTS:
+        for pos in ("main", "sub"):
+            for ch in ODD_CHARS if thorough else ODD_MANGLED_QUICK:
+                emit(f, 0, pos, 1 if thorough else 0, "odd", odd={"ch": ch, "site": -1})
     if thorough:
         for f in forests(3, 3):
             emit(f, hrot(f), hpos(f), 1, "n3")
@@ -969,6 +1083,7 @@ def check_canonical(ctx: Ctx, r: common.Result, labels: List[str], spec: Any) ->
             where = "file"
         sig = {"kind": kind, "mangling": "none", "entry": "canonical:" + where}
         sig.update(kw)
+        sig.update(odd_sig(spec))
         r.violation(sig, f"[{ctx.family} canonical {ctx.target}] {msg}", case)
 
     for replace in (False, True):
@@ -984,7 +1099,27 @@ def check_canonical(ctx: Ctx, r: common.Result, labels: List[str], spec: Any) ->
             viol("compliant_file_rewritten", f"compliant file changed by validate_file({mode})", complaint=first, mode=mode)
         if left:
             viol("suggestion_file_left", f"{left} left behind after validate_file({mode}) on a compliant file", complaint=first, mode=mode)
-    if ctx.family == "kconfig":
+    odd = spec.get("odd") if isinstance(spec, dict) else None
+    if ctx.family == "kconfig" and odd:
+        # Texts with odd characters: parser 2 tokenises with str.split() and reads white-space-like characters inside a
+        # quoted string differently from parser 1 (property C04, recorded there).  Clause 1 is about the checker only; the
+        # files with one odd character are not parsed by parser 2 at all, the mangled ones are judged per parser.
+        m1 = ctx.meaning(text, 1)
+        if m1[0] != "ok":
+            good = False
+            r.violation(
+                dict({"kind": "canonical_rejected_by_parser1", "mangling": "none", "entry": "canonical:" + constructs, "exc": m1[1]}, **odd_sig(spec)),
+                f"[canonical {ctx.target}] parser 1 rejects the compliant program: {m1[1:3]}",
+                case,
+            )
+        elif odd["site"] == -1:
+            m2 = ctx.meaning(text, 2)
+            if m2[0] != "ok":
+                good = False
+                r.count("canonical_rejected_by_parser2(C04)")
+            elif m2 != m1:
+                r.count("canonical_parsers_disagree(C04)")
+    elif ctx.family == "kconfig":
         m1 = ctx.meaning(text, 1)
         m2 = ctx.meaning(text, 2)
         if m1[0] != "ok" or m2[0] != "ok" or m1 != m2:
@@ -1001,6 +1136,15 @@ def check_canonical(ctx: Ctx, r: common.Result, labels: List[str], spec: Any) ->
         if m1[0] != "ok":
             viol("canonical_rename_rejected_by_loader", f"load_rename_files rejects the canonical rename file: {m1}")
     return good
+
+
+def odd_sig(spec: Any) -> Dict[str, str]:
+    """signature part of the files that carry an odd character in their texts"""
+    odd = spec.get("odd") if isinstance(spec, dict) else None
+    if not odd:
+        return {}
+    where = odd.get("kind") or ("every_string" if odd["ch"] in STR_ONLY_CHARS else "every_text")
+    return {"odd": f"{odd_class(odd['ch'])}@{where}"}
 
 
 def spec_constructs(spec: Any) -> str:
@@ -1109,7 +1253,23 @@ def core_classes(ctx: Ctx, mtext: str, canon_meaning: tuple) -> Tuple[str, List[
             fail(f"the fixed point reads differently from the mangled input under parser 1 (first difference: {fld})", kind="meaning_changed", field=fld)
     if ctx.family == "kconfig" and m1[0] == "ok":
         m2 = ctx.meaning(fixed, 2)
-        if m2 != m1:
+        c2 = ctx.meaning(ctx.files[ctx.target], 2) if m2 != m1 else m2
+        if m2 != m1 and c2[0] == "ok" and c2 != canon_meaning:
+            # The parsers already read the COMPLIANT file differently (odd characters inside quoted strings: C04's business).
+            # Parser 2 is then judged against itself: the fixed point has to keep parser 2's reading of the mangled input, or
+            # return to parser 2's reading of the compliant file.
+            info["canonical_parsers_disagree"] = True
+            if m2 != c2:
+                m20 = ctx.meaning(mtext, 2)
+                if m20[0] != "ok":
+                    info["parser2_rejects_mangled_input"] = True  # nothing to compare with
+                elif m2[0] != "ok":
+                    fail(f"the fixed point is rejected by parser 2 ({m2[1]} at {m2[2]}) although parser 2 accepted the mangled input", kind="result_rejected_by_parser2", exc=m2[1], parsers_agree_on_input=False)
+                else:
+                    fld = dump_diff(m20[1], m2[1], c2[1])
+                    if fld is not None:
+                        fail(f"the fixed point reads differently from the mangled input under parser 2 (first difference: {fld})", kind="meaning_changed_parser2", field=fld)
+        elif m2 != m1:
             # is it the checker's doing, or do the parsers already disagree on the mangled input?
             m20 = ctx.meaning(mtext, 2)
             same_on_input = m20 == m0
@@ -1138,6 +1298,10 @@ def evaluate(ctx: Ctx, r: common.Result, lines: List[str], labels: List[str], op
         r.count("parsers_disagree_on_mangled_input(C04)")
     if info.get("restored"):
         r.count("shifted_reading_restored_to_canonical")
+    if info.get("canonical_parsers_disagree"):
+        r.count("parser2_judged_against_itself(parsers disagree on the compliant file: C04)")
+    if info.get("parser2_rejects_mangled_input"):
+        r.count("parser2_rejects_mangled_input")
     fixed = info.get("fixed")
     if fixed is not None:
         r.count("fixed_point_is_canonical" if fixed == ctx.files[ctx.target] else "fixed_point_not_canonical")
@@ -1162,6 +1326,7 @@ def evaluate(ctx: Ctx, r: common.Result, lines: List[str], labels: List[str], op
         sig["mangling"] = "+".join(OP_KIND[op] for _, op in ops)
         sig["entry"] = "+".join("file" if li < 0 else labels[li] for li, _ in ops)
         sig["reading"] = info["reading"]
+        sig.update(odd_sig(spec))
         r.violation(
             sig,
             f"[{ctx.family} {ctx.target}] {fmt_ops(ops, lines)}: {msg}",
@@ -1236,6 +1401,10 @@ def rename_programs(tier: str) -> List[Tuple[str, ...]]:
     return out
 
 
+# rename files whose comment lines / trailing comments carry an odd character (option names are [A-Za-z0-9_] only)
+ODD_RENAMES = (("cmt",), ("tail",), ("cmt", "plain"), ("plain", "tail"), ("cmt", "inv", "tail"), ("tail", "cmt", "tail"))
+
+
 def rename_controls() -> List[Tuple[str, ...]]:
     out = []
     for k in REN_CONTROL_KINDS:
@@ -1260,10 +1429,16 @@ def items(tier: str, seed: int):
                 continue  # the 3-line root of sourced bodies is identical everywhere; mangled once per n=1 program
             for lo, hi, n in chunks([l for l, _ in ls], spec["D"], KALPHA, CHUNK):
                 out.append({"family": "kconfig", "spec": spec, "target": target, "lo": lo, "hi": hi, "n": n})
+    singles = odd_single_specs()
+    per = 64
+    for i in range(0, len(singles), per):
+        out.append({"family": "oddcanon", "specs": singles[i : i + per]})
     rens = rename_programs(tier)
     per = 8
     for i in range(0, len(rens), per):
         out.append({"family": "rename", "kinds": rens[i : i + per]})
+    for ch in SEP_CHARS + NEIGH_CHARS:
+        out.append({"family": "rename", "kinds": list(ODD_RENAMES), "odd": ch})
     out.append({"family": "control", "specs": control_specs(), "renames": rename_controls()})
     return out
 
@@ -1283,7 +1458,8 @@ def run_kconfig_item(item, r: common.Result) -> None:
         # the statement about manglings presupposes a compliant file the checker accepts and both parsers read
         v = ctx.validate(files[target])
         canon_meaning = ctx.meaning(files[target], 1)
-        if not (v[0] == "ret" and v[1] and v[2] == files[target]) or canon_meaning[0] != "ok" or ctx.meaning(files[target], 2) != canon_meaning:
+        m2c = ctx.meaning(files[target], 2)
+        if not (v[0] == "ret" and v[1] and v[2] == files[target]) or canon_meaning[0] != "ok" or (m2c[0] != "ok" if spec.get("odd") else m2c != canon_meaning):
             r.count("work_items_not_mangled_because_canonical_form_is_refused")
             return
         single_cache: Dict[Tuple[int, str], set] = {}
@@ -1304,16 +1480,28 @@ def run_kconfig_item(item, r: common.Result) -> None:
         ctx.close()
 
 
-def run_rename_item(item, r: common.Result) -> None:
+def rename_variants(item) -> Iterator[Tuple[List[Tuple[str, str]], Dict[str, Any]]]:
+    """(lines with labels, spec) of every rename file of a work item; with an odd character: in every comment at once
+    (site -1) and in each comment alone"""
+    ch = item.get("odd")
     for kinds in item["kinds"]:
-        ls = rename_lines(kinds)
+        ls = rename_lines(tuple(kinds))
+        if ch is None:
+            yield ls, {"rename": list(kinds)}
+            continue
+        sites = odd_sites(ls, "rename")
+        for k in [-1] + (list(range(len(sites))) if len(sites) > 1 else []):
+            yield odd_render(ls, ch, k, "rename"), {"rename": list(kinds), "odd": {"ch": ch, "site": k, "kind": "every_comment" if k < 0 else sites[k][3]}}
+
+
+def run_rename_item(item, r: common.Result) -> None:
+    for ls, spec in rename_variants(item):
         lines = [l for l, _ in ls]
         labels = [lb for _, lb in ls]
         files = {"sdkconfig.rename": text_of(ls)}
         ctx = Ctx(files, "sdkconfig.rename", family="rename")
         try:
             r.programs += 1
-            spec = {"rename": list(kinds)}
             if not check_canonical(ctx, r, labels, spec):
                 r.count("programs_whose_canonical_form_is_refused")
                 continue
@@ -1379,10 +1567,29 @@ def run_control_item(item, r: common.Result) -> None:
             ctx.close()
 
 
+def run_oddcanon_item(item, r: common.Result) -> None:
+    for spec in item["specs"]:
+        prog = render_spec(spec)
+        files = {fn: text_of(ls) for fn, ls in prog.items()}
+        target = odd_target(spec)
+        ctx = Ctx(files, target)
+        try:
+            r.programs += 1
+            ok = check_canonical(ctx, r, [lb for _, lb in prog[target]], spec)
+            r.outcome(("odd", spec["pos"], odd_name(spec["odd"]["ch"]), spec["odd"]["site"], ok))
+            r.count("odd_character_files_" + odd_class(spec["odd"]["ch"]))
+            if r.sample is None and spec["odd"]["ch"] in SEP_CHARS:
+                r.sample = {"target": target, "spec": repr(spec), "text": files[target]}
+        finally:
+            ctx.close()
+
+
 def run_item(item) -> common.Result:
     r = common.Result()
     if item["family"] == "kconfig":
         run_kconfig_item(item, r)
+    elif item["family"] == "oddcanon":
+        run_oddcanon_item(item, r)
     elif item["family"] == "control":
         run_control_item(item, r)
     else:
